@@ -136,7 +136,7 @@ def stor_fault_enum(prop, harness, cfg, budget, targets, scratch, known_path, se
 
 # ------------------------------------------------------------------------------------------ chan
 def chan_exhaustive(prop, harness, cfg, budget, targets, scratch, known_path, seed, env_base, nworkers, full):
-    """Every tape of length 1..depth over a 17-token alphabet, for capacities 4, 5 and 6 (complete
+    """Every tape of length 1..depth over an 18-token alphabet, for capacities 4, 5 and 6 (complete
     within that bound).  Token kinds of harness/chan/chan.cpp."""
     exe = targets["en"].out
     alphabet = [
@@ -146,6 +146,7 @@ def chan_exhaustive(prop, harness, cfg, budget, targets, scratch, known_path, se
         (6, 0, 0), (7, 0, 0),                            # R_MAP reader 0 (held), R_UNMAP reader 0 all
         (8, 0, 0), (8, 1, 0), (10, 1, 0),                # ACCEPT 0, ACCEPT 1, PREWAIT on
         (12, 1, 0),                                      # PRELOCK on (writer pauses before its first lock call)
+        (13, 0, 0),                                      # REWIND
     ]
     depth = 6 if full else 5
     d = os.path.join(scratch, "chanenum")
@@ -192,7 +193,7 @@ def chan_exhaustive(prop, harness, cfg, budget, targets, scratch, known_path, se
     expected = sum(len(alphabet) ** k for k in range(1, depth + 1)) * len(caps)
     extra = {"bounded_exhaustive": {"alphabet_tokens": len(alphabet), "depth": depth, "capacities": [c for c, _ in caps], "tapes_run": total,
                                     "tapes_in_space": expected, "exhaustive_within_bound": total == expected,
-                                    "alphabet": "W_WRITE{1,2,cap-1,to-end} W_MAP(2) W_COMMIT W_ABORT R_READ{r0 all,r0 1 byte,r0 none,r1 all} R_MAP(r0; on a mapped reader that holds everything = the refused map-while-mapped) R_UNMAP(r0 all) ACCEPT{0,1} PREWAIT(on) PRELOCK(on)"}}
+                                    "alphabet": "W_WRITE{1,2,cap-1,to-end} W_MAP(2) W_COMMIT W_ABORT R_READ{r0 all,r0 1 byte,r0 none,r1 all} R_MAP(r0; on a mapped reader that holds everything = the refused map-while-mapped) R_UNMAP(r0 all) ACCEPT{0,1} PREWAIT(on) PRELOCK(on) REWIND"}}
     return stats, cands, extra
 
 
